@@ -1041,3 +1041,1015 @@ Proof.
 Qed.
 
 End Total2.
+
+(* ====================================================================================== *)
+(* Part 3: failing sources (C15)                                                           *)
+(* ====================================================================================== *)
+
+
+Lemma err_eqb_eq a b : err_eqb a b = true <-> a = b.
+Proof. destruct a, b; cbn; split; intros H; try reflexivity; try discriminate. Qed.
+Lemma err_eqb_neq a b : err_eqb a b = false <-> a <> b.
+Proof.
+  split.
+  - intros H E. apply err_eqb_eq in E. congruence.
+  - intros H. destruct (err_eqb a b) eqn:E; [apply err_eqb_eq in E; contradiction|reflexivity].
+Qed.
+
+Lemma rd_full_eof n r b r' : rd_full n r = (b, Some EEOF, r') -> end_err r = EEOF /\ end_err r' = EEOF.
+Proof.
+  intros H. pose proof (rd_full_adv _ _ _ _ _ H) as [Ha _]. apply rd_full_err in H.
+  destruct H as [H _]. unfold end_err. rewrite Ha.
+  destruct (r_end r) as [x|]; [subst; auto|auto].
+Qed.
+
+Lemma rd_skip_eof n r r' : rd_skip n r = (Some EEOF, r') -> end_err r = EEOF /\ end_err r' = EEOF.
+Proof.
+  intros H. pose proof (rd_skip_adv _ _ _ _ H) as [Ha _]. apply rd_skip_err in H.
+  destruct H as [H _]. unfold end_err in *. rewrite Ha. auto.
+Qed.
+
+Section FailNotEof.
+Variable lo : lopts.
+Variable dstream : doracle.
+Variable e : err.
+Hypothesis He1 : e <> EEOF.
+Hypothesis He2 : e <> EUnexpectedEOF.
+Hypothesis He3 : e <> ETruncated.
+
+Definition eof_in_chunk (oe : option err) (s : lstate) : Prop :=
+  oe = Some EEOF -> exists r, lx_chunk s = Some r /\ end_err r = EEOF.
+
+Lemma lc_head_fail rl s : r_end (lx_base s) = Some e ->
+  match lc_head rl s with LC1Err x _ => x <> EEOF | LC1Ok _ _ _ _ _ => True end.
+Proof.
+  intros Hb. unfold lc_head.
+  destruct (rd_full 32 (lx_base s)) as [[hd x] b1] eqn:E1.
+  pose proof (rd_full_adv _ _ _ _ _ E1) as [Ha1 _].
+  destruct x as [x|].
+  { apply rd_full_err in E1. destruct E1 as [E1 _]. rewrite Hb in E1. subst x.
+    destruct e; congruence. }
+  destruct (rl <? _); [discriminate|].
+  destruct (_ && _); [discriminate|].
+  match goal with |- context[rd_full ?n ?r] => destruct (rd_full n r) as [[cb x] b2] eqn:E2 end.
+  destruct x as [x|]; [|exact I].
+  apply rd_full_err in E2. destruct E2 as [E2 _].
+  assert (Hx : x = e).
+  { rewrite E2. destruct (lx_bufcap _ <? _); rsimpl; rewrite Ha1, Hb; reflexivity. }
+  clear E2. subst x. destruct e; cbv beta iota; try discriminate; congruence.
+Qed.
+
+Lemma lc_validate_fail usize ucrc comp b cr s oe s' :
+  lx_chunk s = Some cr -> r_end b = r_end (lx_base s) ->
+  lc_validate lo usize ucrc comp b cr s = (oe, s') ->
+  r_end (lx_base s') = r_end (lx_base s) /\ eof_in_chunk oe s'.
+Proof.
+  intros Hc Hb. unfold lc_validate, eof_in_chunk.
+  destruct ((0 <? lo_max_chunk lo) && (lo_max_chunk lo <? usize)); [intros H; inversion H; subst; split; [reflexivity|discriminate]|].
+  destruct ((lx_ubuf s <? usize) && (max_int32 <? usize)); [intros H; inversion H; subst; split; [reflexivity|discriminate]|].
+  destruct ((lx_ubuf s <? usize) && negb (usize * 2 <? max_int32)); [intros H; inversion H; subst; split; [reflexivity|discriminate]|].
+  match goal with |- context[rd_full usize cr] => destruct (rd_full usize cr) as [[data x] r1] eqn:Er end.
+  set (sa := if lx_ubuf s <? usize then _ else s).
+  assert (Gl : lx_base sa = lx_base s) by (subst sa; destruct (lx_ubuf s <? usize); reflexivity).
+  clearbody sa.
+  destruct x as [x|].
+  { intros H; inversion H; subst; clear H. rsimpl. rewrite Gl. split; [reflexivity|].
+    intros Hx; inversion Hx; subst. apply rd_full_eof in Er. exists r1. split; [reflexivity|apply Er]. }
+  set (sb := if bytes_eqb comp _ then set lx_chunk _ _ else _).
+  assert (Gsb : lx_base sb = lx_base s /\
+                (bytes_eqb comp [x6c; x7a; x34] = true -> lx_chunk sb = Some {| r_buf := []; r_end := r_end r1; r_seek := false |})).
+  { subst sb. destruct (bytes_eqb comp _); rsimpl; rewrite Gl; split; auto; discriminate. }
+  destruct Gsb as [Gl2 Gc2]. clearbody sb.
+  destruct (bytes_eqb comp [x6c; x7a; x34]) eqn:Elz.
+  - destruct (match r_buf r1 with [] => _ | _ => _ end) as [x|] eqn:Ex.
+    { intros H; inversion H; subst; clear H. split; [rewrite Gl2; reflexivity|].
+      intros Hx; inversion Hx; subst. eexists. split; [apply Gc2; reflexivity|].
+      unfold end_err. cbn [r_end].
+      destruct (r_buf r1), (r_end r1); try discriminate; inversion Ex; reflexivity. }
+    destruct ((0 <? ucrc) && negb (crc32 data =? ucrc)).
+    { intros H; inversion H; subst; clear H. split; [rewrite Gl2; reflexivity|discriminate]. }
+    intros H; inversion H; subst; clear H.
+    split; [|discriminate]. destruct (_ || _); rsimpl; congruence.
+  - destruct ((0 <? ucrc) && negb (crc32 data =? ucrc)).
+    { intros H; inversion H; subst; clear H. split; [rewrite Gl2; reflexivity|discriminate]. }
+    intros H; inversion H; subst; clear H.
+    split; [|discriminate]. destruct (_ || _); rsimpl; congruence.
+Qed.
+
+Lemma load_chunk_fail rl s oe s' : r_end (lx_base s) = Some e ->
+  load_chunk lo dstream rl s = (oe, s') ->
+  r_end (lx_base s') = Some e /\ eof_in_chunk oe s'.
+Proof.
+  intros Hb. rewrite load_chunk_eq. destruct (lx_chunk s) eqn:Ec.
+  { intros H; inversion H; subst. split; [exact Hb|discriminate]. }
+  pose proof (lc_head_spec rl s) as Hh. pose proof (lc_head_fail rl s Hb) as Hf.
+  destruct (lc_head rl s) as [x s1|usize ucrc comp rlen s1].
+  { destruct Hh as [[Ha _] _]. intros H; inversion H; subst.
+    split; [congruence|]. intros Hx; inversion Hx; subst; contradiction. }
+  destruct Hh as [[Ha _] [Hc _]].
+  destruct (negb (lc_supported lo comp)).
+  { intros H; inversion H; subst. split; [congruence|discriminate]. }
+  cbv zeta. destruct (lc_open lo dstream comp rlen (lx_base s1)) as [b' cr] eqn:Eo.
+  assert (Hb' : r_end b' = r_end (lx_base s1)).
+  { unfold lc_open in Eo.
+    match type of Eo with context[let '(_, _) := ?X in _] => destruct X as [plain pend] end.
+    inversion Eo; subst. reflexivity. }
+  destruct (negb (lo_validate lo)).
+  { intros H; inversion H; subst. rsimpl. split; [congruence|discriminate]. }
+  intros H. apply lc_validate_fail in H; [|reflexivity|rsimpl; congruence].
+  destruct H as [V1 V2]. split; [|exact V2]. rewrite V1. rsimpl. congruence.
+Qed.
+
+
+Hypothesis Hcb : lo_cb lo = CbNone.
+
+Lemma end_err_base_set_cur r s :
+  r_end r = r_end (cur s) -> r_end (lx_base (set_cur r s)) = r_end (lx_base s).
+Proof. intros H. rewrite base_set_cur. unfold cur in H. destruct (lx_chunk s); [reflexivity|exact H]. Qed.
+
+(* an error from the current reader that is EEOF can only come from a chunk reader *)
+Lemma eof_cur r s : r_end (lx_base s) = Some e -> r_end r = r_end (cur s) -> end_err r = EEOF ->
+  eof_in_chunk (Some EEOF) (set_cur r s).
+Proof.
+  intros Hb Hr He _. rewrite chunk_set_cur. unfold cur in Hr. destruct (lx_chunk s) as [c|].
+  - exists r. split; [reflexivity|exact He].
+  - unfold end_err in He. rewrite Hr, Hb in He. contradiction.
+Qed.
+
+Lemma lex_step_fail pcap s evs : r_end (lx_base s) = Some e ->
+  match lex_step lo dstream pcap s evs with
+  | SCont s' _ => r_end (lx_base s') = Some e
+  | SDone _ res s' =>
+    r_end (lx_base s') = Some e /\ (res = NErr EEOF -> exists r, lx_chunk s' = Some r /\ end_err r = EEOF)
+  end.
+Proof.
+  intros Hb. unfold lex_step.
+  destruct (rd_full 9 (cur s)) as [[hd x] r1] eqn:E9.
+  pose proof (rd_full_adv _ _ _ _ _ E9) as [Ha _].
+  assert (B1 : r_end (lx_base (set_cur r1 s)) = Some e).
+  { rewrite end_err_base_set_cur; assumption. }
+  destruct x as [x|].
+  { apply rd_full_err in E9. destruct E9 as [E9 _].
+    destruct (lx_chunk s) as [c|] eqn:Ec.
+    - clear E9. cbn [andb]. destruct (err_eqb x EEOF || _) eqn:Ee.
+      + exact B1.
+      + apply orb_false_iff in Ee. destruct Ee as [Ee1 Ee2]. rewrite Ee2.
+        split; [exact B1|]. intros Hx; inversion Hx; subst. cbn in Ee1. discriminate.
+    - cbn [andb]. unfold cur in E9. rewrite Ec, Hb in E9. subst x.
+      replace (err_eqb e EUnexpectedEOF || err_eqb e ETruncated) with false.
+      2:{ symmetry. apply orb_false_iff. split; apply err_eqb_neq; assumption. }
+      split; [exact B1|]. intros Hx; inversion Hx; subst. contradiction. }
+  set (rlen := unle (skipn 1 hd)).
+  destruct ((0 <? lo_max_record lo) && (lo_max_record lo <? rlen)); [split; [exact B1|discriminate]|].
+  destruct (_ && negb (lo_emit_chunks lo)).
+  { destruct (load_chunk lo dstream rlen (set_cur r1 s)) as [oe s2] eqn:El.
+    apply load_chunk_fail in El; [|assumption..]. destruct El as [L1 L2].
+    destruct oe as [x|]; [|exact L1].
+    destruct (lo_emit_invalid lo && _) eqn:Ei; (split; [exact L1|]); [discriminate|].
+    intros Hx; inversion Hx; subst. apply L2. reflexivity. }
+  destruct (Byte.eqb _ OpAttachment).
+  { destruct (9223372036854775807 <? rlen); [split; [exact B1|discriminate]|].
+    rewrite do_attachment_none by exact Hcb.
+    destruct (rd_skip rlen (cur (set_cur r1 s))) as [oe r2] eqn:Es. cbn [fst snd].
+    pose proof (rd_skip_adv _ _ _ _ Es) as [Ha2 _].
+    assert (B2 : r_end (lx_base (set_cur r2 (set_cur r1 s))) = Some e).
+    { rewrite end_err_base_set_cur; assumption. }
+    destruct oe as [x|]; [|exact B2]. split; [exact B2|].
+    intros Hx; inversion Hx; subst. apply rd_skip_eof in Es.
+    apply eof_cur; [exact B1|exact Ha2|apply Es|reflexivity]. }
+  destruct ((pcap <? rlen) && negb (rlen <? max_int32)); [split; [exact B1|discriminate]|].
+  set (s1 := if pcap <? rlen then _ else _).
+  assert (G1 : r_end (lx_base s1) = Some e).
+  { subst s1. destruct (pcap <? rlen); [exact B1|exact B1]. }
+  clearbody s1.
+  destruct (rd_full rlen (cur s1)) as [[body x] r3] eqn:E3.
+  pose proof (rd_full_adv _ _ _ _ _ E3) as [Ha3 _].
+  assert (B3 : r_end (lx_base (set_cur r3 s1)) = Some e).
+  { rewrite end_err_base_set_cur; assumption. }
+  destruct x as [x|].
+  { assert (Hx : x = EEOF -> exists r, lx_chunk (set_cur r3 s1) = Some r /\ end_err r = EEOF).
+    { intros ->. apply rd_full_eof in E3. apply eof_cur; [exact G1|exact Ha3|apply E3|reflexivity]. }
+    destruct x; (split; [exact B3|]); try discriminate. intros _. apply Hx. reflexivity. }
+  destruct (known_op _); [split; [exact B3|discriminate]|].
+  destruct (Byte.eqb _ x00); [split; [exact B3|discriminate]|exact B3].
+Qed.
+
+Lemma lex_next_fail : forall fuel pcap s evs evs' res s',
+  r_end (lx_base s) = Some e ->
+  lex_next lo dstream fuel pcap s evs = Ok (evs', res, s') ->
+  r_end (lx_base s') = Some e /\ (res = NErr EEOF -> exists r, lx_chunk s' = Some r /\ end_err r = EEOF).
+Proof.
+  induction fuel as [|f IH]; intros pcap s evs evs' res s' Hb; [discriminate|].
+  rewrite lex_next_S. pose proof (lex_step_fail pcap s evs Hb) as Hs.
+  destruct (lex_step _ _ _ _ _) as [a b c|s1 evs1].
+  - intros H; inversion H; subst. exact Hs.
+  - intros H. eapply IH; eauto.
+Qed.
+
+Lemma lex_loop_fail : forall n fuel s acc evs fin s',
+  r_end (lx_base s) = Some e ->
+  lex_loop lo dstream n fuel s acc = Ok (evs, fin, s') ->
+  fin = EEOF -> exists r, lx_chunk s' = Some r /\ end_err r = EEOF.
+Proof.
+  induction n as [|n IH]; intros fuel s acc evs fin s' Hb; [discriminate|]. cbn [lex_loop].
+  destruct (lex_next lo dstream fuel 0 s []) as [[[evs1 r] s1]| | | |] eqn:E; try discriminate.
+  apply lex_next_fail in E; [|exact Hb]. destruct E as [E1 E2].
+  destruct r.
+  - intros H. eapply IH; eauto.
+  - intros H; inversion H; subst. intros ->. apply E2. reflexivity.
+Qed.
+
+Theorem lex_all_fail_eof fuel p sk evs fin s' :
+  lex_all lo dstream fuel {| r_buf := p; r_end := Some e; r_seek := sk |} = Ok (evs, fin, s') ->
+  fin = EEOF -> exists r, lx_chunk s' = Some r /\ end_err r = EEOF.
+Proof.
+  unfold lex_all. destruct (new_lexer lo _) as [s| | | |] eqn:En; try discriminate.
+  assert (Hb : r_end (lx_base s) = Some e).
+  { unfold new_lexer in En. destruct (lo_skip_magic lo); [inversion En; reflexivity|].
+    destruct (rd_full 8 _) as [[m x] r1] eqn:E8. apply rd_full_adv in E8. destruct E8 as [E8 _].
+    destruct x; [discriminate|]. destruct (bytes_eqb m magic); [|discriminate].
+    inversion En; subst. rsimpl. exact E8. }
+  intros H. eapply lex_loop_fail; eauto.
+Qed.
+
+(* with EmitChunks the lexer never enters a chunk: a failing source never yields a clean EOF *)
+Lemma lex_step_nochunk pcap s evs : lo_emit_chunks lo = true -> lx_chunk s = None ->
+  match lex_step lo dstream pcap s evs with
+  | SCont s' _ | SDone _ _ s' => lx_chunk s' = None
+  end.
+Proof.
+  intros Hem Hc. unfold lex_step.
+  destruct (rd_full 9 (cur s)) as [[hd x] r1].
+  assert (C1 : lx_chunk (set_cur r1 s) = None) by (rewrite chunk_set_cur, Hc; reflexivity).
+  destruct x as [x|].
+  { rewrite Hc. cbn [andb]. destruct (_ || _); [destruct (_ && _)|]; exact C1. }
+  destruct (_ && (_ <? _)); [exact C1|].
+  rewrite Hem. cbn [negb]. rewrite andb_false_r.
+  destruct (Byte.eqb _ OpAttachment).
+  { destruct (9223372036854775807 <? _); [exact C1|].
+    destruct (do_attachment _ _ _) as [[ev e2] r2].
+    assert (C2 : lx_chunk (set_cur r2 (set_cur r1 s)) = None) by (rewrite chunk_set_cur, C1; reflexivity).
+    destruct e2; exact C2. }
+  destruct (_ && negb _); [exact C1|].
+  set (s1 := if pcap <? _ then _ else _).
+  assert (G1 : lx_chunk s1 = None) by (subst s1; destruct (pcap <? _); exact C1).
+  clearbody s1.
+  destruct (rd_full _ (cur s1)) as [[body x] r3].
+  assert (C3 : lx_chunk (set_cur r3 s1) = None) by (rewrite chunk_set_cur, G1; reflexivity).
+  destruct x as [x|]; [destruct x; exact C3|].
+  destruct (known_op _); [exact C3|]. destruct (Byte.eqb _ x00); exact C3.
+Qed.
+
+Lemma lex_next_nochunk : forall fuel pcap s evs evs' res s',
+  lo_emit_chunks lo = true -> lx_chunk s = None ->
+  lex_next lo dstream fuel pcap s evs = Ok (evs', res, s') -> lx_chunk s' = None.
+Proof.
+  induction fuel as [|f IH]; intros pcap s evs evs' res s' Hem Hc; [discriminate|].
+  rewrite lex_next_S. pose proof (lex_step_nochunk pcap s evs Hem Hc) as Hs.
+  destruct (lex_step _ _ _ _ _) as [a b c|s1 evs1].
+  - intros H; inversion H; subst. exact Hs.
+  - intros H. eapply IH; eauto.
+Qed.
+
+Lemma lex_loop_nochunk : forall n fuel s acc evs fin s',
+  lo_emit_chunks lo = true -> lx_chunk s = None ->
+  lex_loop lo dstream n fuel s acc = Ok (evs, fin, s') -> lx_chunk s' = None.
+Proof.
+  induction n as [|n IH]; intros fuel s acc evs fin s' Hem Hc; [discriminate|]. cbn [lex_loop].
+  destruct (lex_next lo dstream fuel 0 s []) as [[[evs1 r] s1]| | | |] eqn:E; try discriminate.
+  apply lex_next_nochunk in E; auto.
+  destruct r.
+  - intros H. eapply IH; eauto.
+  - intros H; inversion H; subst. exact E.
+Qed.
+
+Theorem lex_all_fail_not_eof_emit_chunks fuel p sk evs fin s' :
+  lo_emit_chunks lo = true ->
+  lex_all lo dstream fuel {| r_buf := p; r_end := Some e; r_seek := sk |} = Ok (evs, fin, s') ->
+  fin <> EEOF.
+Proof.
+  intros Hem H Hf. destruct (lex_all_fail_eof _ _ _ _ _ _ H Hf) as [r [Hr _]].
+  unfold lex_all in H. destruct (new_lexer lo _) as [s| | | |] eqn:En; try discriminate.
+  assert (Hc : lx_chunk s = None).
+  { unfold new_lexer in En. destruct (lo_skip_magic lo); [inversion En; reflexivity|].
+    destruct (rd_full 8 _) as [[m x] r1]. destruct x; [discriminate|].
+    destruct (bytes_eqb m magic); [|discriminate]. inversion En; reflexivity. }
+  apply lex_loop_nochunk in H; auto. congruence.
+Qed.
+
+End FailNotEof.
+
+
+Section Prefix.
+Variable lo : lopts.
+Variable dstream : doracle.
+Variable e : err.
+Hypothesis He1 : e <> EEOF.
+Hypothesis He2 : e <> EUnexpectedEOF.
+Hypothesis He3 : e <> ETruncated.
+Hypothesis He4 : e <> EInvalidChunkCrc.
+Hypothesis Hcb : lo_cb lo = CbNone.
+(* decoders pass the error of the underlying reader through *)
+Hypothesis Hprop : forall c a, snd (dstream c a (Some e)) = Some e.
+(* what a decoder delivers from a cut input is a prefix of what it delivers from the whole input *)
+Hypothesis Hmono : forall c a t, exists u, fst (dstream c (a ++ t) None) = fst (dstream c a (Some e)) ++ u.
+
+(* r is the failing reader, rC the reader over the complete input *)
+Definition cut (r rC : rdr) : Prop :=
+  r_end r = Some e /\ r_seek rC = r_seek r /\ exists t, r_buf rC = r_buf r ++ t.
+(* result of running the same operation on both *)
+Definition rrel (r rC : rdr) : Prop := r = rC \/ cut r rC.
+
+Lemma rd_full_rrel n r rC b oe r' : rrel r rC -> rd_full n r = (b, oe, r') ->
+  (oe = Some e /\ cut r rC) \/
+  exists rC', rd_full n rC = (b, oe, rC') /\ r_end rC' = r_end rC /\
+              ((r = rC /\ r' = rC') \/ cut r' rC').
+Proof.
+  intros [->|Hc] H.
+  { right. exists r'. split; [exact H|]. split; [apply (rd_full_adv _ _ _ _ _ H)|left; auto]. }
+  destruct Hc as [C1 [C2 [t C3]]].
+  destruct oe as [x|].
+  { left. apply rd_full_err in H. destruct H as [H _]. rewrite C1 in H. subst x.
+    split; [reflexivity|]. split; [exact C1|split; [exact C2|exists t; exact C3]]. }
+  right. revert H. unfold rd_full. destruct (n =? 0) eqn:E0.
+  { intros H; inversion H; subst. eexists. split; [reflexivity|]. split; [reflexivity|].
+    right. split; [exact C1|split; [exact C2|exists t; exact C3]]. }
+  destruct (n <=? blen (r_buf r)) eqn:E1; [|discriminate]. apply N.leb_le in E1.
+  intros H; inversion H; subst; clear H.
+  rewrite C3, blen_app. replace (n <=? blen (r_buf r) + blen t) with true by lia.
+  rewrite take_app_le, drop_app_le by lia.
+  eexists. split; [reflexivity|]. split; [reflexivity|]. right.
+  split; [exact C1|split; [exact C2|]]. cbn [r_buf]. exists t. reflexivity.
+Qed.
+
+Lemma rd_skip_rrel n r rC oe r' : rrel r rC -> rd_skip n r = (oe, r') ->
+  (oe = Some e /\ cut r rC) \/
+  exists rC', rd_skip n rC = (oe, rC') /\ r_end rC' = r_end rC /\
+              ((r = rC /\ r' = rC') \/ cut r' rC').
+Proof.
+  intros [->|Hc] H.
+  { right. exists r'. split; [exact H|]. split; [apply (rd_skip_adv _ _ _ _ H)|left; auto]. }
+  destruct Hc as [C1 [C2 [t C3]]].
+  destruct oe as [x|].
+  { left. apply rd_skip_err in H. destruct H as [H _]. unfold end_err in H. rewrite C1 in H. subst x.
+    split; [reflexivity|]. split; [exact C1|split; [exact C2|exists t; exact C3]]. }
+  right. revert H. unfold rd_skip. rewrite C2. destruct (r_seek r) eqn:Es.
+  - intros H; inversion H; subst; clear H. eexists. split; [reflexivity|]. split; [reflexivity|].
+    right. split; [exact C1|split; [reflexivity|]]. cbn [r_buf]. rewrite C3.
+    destruct (N.le_gt_cases n (blen (r_buf r))) as [L|L].
+    + rewrite drop_app_le by lia. exists t. reflexivity.
+    + rewrite drop_app_ge by lia. rewrite (drop_all n (r_buf r)) by lia. eexists. reflexivity.
+  - destruct (blen (r_buf r) <? n) eqn:E1; [discriminate|]. apply N.ltb_ge in E1.
+    intros H; inversion H; subst; clear H.
+    rewrite C3, blen_app. replace (blen (r_buf r) + blen t <? n) with false by lia.
+    rewrite drop_app_le by lia.
+    eexists. split; [reflexivity|]. split; [reflexivity|]. right.
+    split; [exact C1|split; [reflexivity|]]. cbn [r_buf]. exists t. reflexivity.
+Qed.
+
+(* ---------- states ---------- *)
+Definition crel (a b : option rdr) : Prop :=
+  match a, b with
+  | None, None => True
+  | Some x, Some y => rrel x y
+  | _, _ => False
+  end.
+
+Definition srel (sF sC : lstate) : Prop :=
+  cut (lx_base sF) (lx_base sC) /\ r_end (lx_base sC) = None /\
+  crel (lx_chunk sF) (lx_chunk sC) /\
+  lx_ubuf sF = lx_ubuf sC /\ lx_bufcap sF = lx_bufcap sC.
+
+Lemma srel_base sF sC bF bC : srel sF sC -> cut bF bC -> r_end bC = None ->
+  srel (sF <| lx_base := bF |>) (sC <| lx_base := bC |>).
+Proof. unfold srel; rsimpl; intuition. Qed.
+Lemma srel_chunk sF sC cF cC : srel sF sC -> rrel cF cC ->
+  srel (sF <| lx_chunk := Some cF |>) (sC <| lx_chunk := Some cC |>).
+Proof. unfold srel; rsimpl; intuition. Qed.
+Lemma srel_chunk_none sF sC : srel sF sC ->
+  srel (sF <| lx_chunk := None |>) (sC <| lx_chunk := None |>).
+Proof. unfold srel; rsimpl; intuition. Qed.
+Lemma srel_allocs sF sC x y : srel sF sC ->
+  srel (sF <| lx_allocs := x |>) (sC <| lx_allocs := y |>).
+Proof. unfold srel; rsimpl; intuition. Qed.
+Lemma srel_bufcap sF sC n : srel sF sC ->
+  srel (sF <| lx_bufcap := n |>) (sC <| lx_bufcap := n |>).
+Proof. unfold srel; rsimpl; intuition. Qed.
+Lemma srel_ubuf sF sC n : srel sF sC ->
+  srel (sF <| lx_ubuf := n |>) (sC <| lx_ubuf := n |>).
+Proof. unfold srel; rsimpl; intuition. Qed.
+
+Lemma cut_neq r rC : cut r rC -> r_end rC = None -> r <> rC.
+Proof. intros [C1 _] H E. subst. congruence. Qed.
+
+Lemma srel_cur sF sC : srel sF sC -> rrel (cur sF) (cur sC).
+Proof.
+  intros [S1 [S2 [S3 _]]]. unfold cur. unfold crel in S3.
+  destruct (lx_chunk sF), (lx_chunk sC); try contradiction; [exact S3|right; exact S1].
+Qed.
+
+Lemma srel_set_cur sF sC r' rC' : srel sF sC -> r_end rC' = r_end (cur sC) ->
+  ((cur sF = cur sC /\ r' = rC') \/ cut r' rC') ->
+  srel (set_cur r' sF) (set_cur rC' sC).
+Proof.
+  intros S He H. pose proof S as [S1 [S2 [S3 [S4 S5]]]]. unfold set_cur, cur in *. unfold crel in S3.
+  destruct (lx_chunk sF) eqn:EF, (lx_chunk sC) eqn:EC; try contradiction.
+  - apply srel_chunk; [exact S|]. destruct H as [[_ ->]|H]; [left; reflexivity|right; exact H].
+  - destruct H as [[H _]|H].
+    + exfalso. eapply cut_neq; eauto.
+    + apply srel_base; [exact S|exact H|congruence].
+Qed.
+
+Lemma srel_in_chunk sF sC : srel sF sC ->
+  match lx_chunk sF with Some _ => true | None => false end =
+  match lx_chunk sC with Some _ => true | None => false end.
+Proof.
+  intros [_ [_ [S3 _]]]. unfold crel in S3.
+  destruct (lx_chunk sF), (lx_chunk sC); try contradiction; reflexivity.
+Qed.
+
+
+Lemma srel_cut_base sF sC : srel sF sC -> rrel (lx_base sF) (lx_base sC).
+Proof. intros [S1 _]. right. exact S1. Qed.
+
+Lemma e_not_ueof {A} (a b : A) (f : err -> A) :
+  match e with EUnexpectedEOF => a | EEOF => b | x => f x end = f e.
+Proof. destruct e; try reflexivity; congruence. Qed.
+
+Lemma lc_head_sim rl sF sC : srel sF sC ->
+  (exists sF', lc_head rl sF = LC1Err e sF') \/
+  match lc_head rl sF, lc_head rl sC with
+  | LC1Err x a, LC1Err y b => x = y /\ srel a b
+  | LC1Ok u1 c1 m1 r1 a, LC1Ok u2 c2 m2 r2 b => u1 = u2 /\ c1 = c2 /\ m1 = m2 /\ r1 = r2 /\ srel a b
+  | _, _ => False
+  end.
+Proof.
+  intros S. unfold lc_head.
+  destruct (rd_full 32 (lx_base sF)) as [[hd x] b1] eqn:EF.
+  destruct (rd_full_rrel _ _ _ _ _ _ (srel_cut_base _ _ S) EF) as [[-> _]|[b1C [EC [EeC HC]]]].
+  { left. destruct e; try congruence; eexists; reflexivity. }
+  rewrite EC. destruct HC as [[HC _]|HC].
+  { exfalso. destruct S as [S1 [S2 _]]. eapply cut_neq; eauto. }
+  assert (S1 : srel (sF <| lx_base := b1 |>) (sC <| lx_base := b1C |>)).
+  { apply srel_base; [exact S|exact HC|]. destruct S as [_ [S2 _]]. congruence. }
+  destruct x as [x|].
+  { right. destruct x; (split; [reflexivity|exact S1]). }
+  destruct (rl <? _); [right; split; [reflexivity|exact S1]|].
+  set (need := unle (sub hd 28 4) + 8).
+  replace (lx_bufcap (sC <| lx_base := b1C |>)) with (lx_bufcap (sF <| lx_base := b1 |>)) by apply S1.
+  destruct (_ && _); [right; split; [reflexivity|exact S1]|].
+  set (s2F := if _ <? need then _ else sF <| lx_base := b1 |>).
+  set (s2C := if _ <? need then _ else sC <| lx_base := b1C |>).
+  assert (S2 : srel s2F s2C).
+  { subst s2F s2C. destruct (_ <? need); [|exact S1]. apply srel_bufcap, srel_allocs, S1. }
+  clearbody s2F s2C.
+  destruct (rd_full need (lx_base s2F)) as [[cb x] b2] eqn:EF2.
+  destruct (rd_full_rrel _ _ _ _ _ _ (srel_cut_base _ _ S2) EF2) as [[-> _]|[b2C [EC2 [EeC2 HC2]]]].
+  { left. destruct e; try congruence; eexists; reflexivity. }
+  rewrite EC2. destruct HC2 as [[HC2 _]|HC2].
+  { exfalso. destruct S2 as [Sa [Sb _]]. eapply cut_neq; eauto. }
+  assert (S3 : srel (s2F <| lx_base := b2 |>) (s2C <| lx_base := b2C |>)).
+  { apply srel_base; [exact S2|exact HC2|]. destruct S2 as [_ [Sb _]]. congruence. }
+  right. destruct x as [x|]; [destruct x; (split; [reflexivity|exact S3])|].
+  repeat split; try reflexivity; apply S3.
+Qed.
+
+
+Lemma lc_open_sim comp rlen bF bC b'F crF b'C crC : cut bF bC -> r_end bC = None ->
+  lc_open lo dstream comp rlen bF = (b'F, crF) -> lc_open lo dstream comp rlen bC = (b'C, crC) ->
+  cut b'F b'C /\ r_end b'C = None /\ rrel crF crC.
+Proof.
+  intros [C1 [C2 [t C3]]] HN. unfold lc_open. rewrite C3, blen_app, HN, C1, C2.
+  destruct (N.le_gt_cases rlen (blen (r_buf bF))) as [L|L].
+  - replace (rlen <=? blen (r_buf bF)) with true by lia.
+    replace (rlen <=? blen (r_buf bF) + blen t) with true by lia.
+    rewrite take_app_le, drop_app_le by lia.
+    destruct (if bytes_eqb comp [] && _ then _ else _) as [plain pend].
+    intros H1 H2; inversion H1; inversion H2; subst; clear H1 H2.
+    split; [|split; [reflexivity|left; reflexivity]].
+    split; [reflexivity|split; [reflexivity|]]. cbn [r_buf]. exists t. reflexivity.
+  - replace (rlen <=? blen (r_buf bF)) with false by lia.
+    rewrite take_app_ge, drop_app_ge by lia. rewrite (take_all rlen (r_buf bF)), (drop_all rlen (r_buf bF)) by lia.
+    set (t' := take (rlen - blen (r_buf bF)) t).
+    replace (if rlen <=? blen (r_buf bF) + blen t then None else None) with (@None err)
+      by (destruct (rlen <=? _); reflexivity).
+    destruct (bytes_eqb comp [] && _).
+    + intros H1 H2; inversion H1; inversion H2; subst; clear H1 H2.
+      split; [|split; [reflexivity|right]].
+      * split; [reflexivity|split; [reflexivity|]]. cbn [r_buf]. eexists. reflexivity.
+      * split; [reflexivity|split; [reflexivity|]]. cbn [r_buf]. exists t'. reflexivity.
+    + pose proof (Hprop comp (r_buf bF)) as P1. destruct (Hmono comp (r_buf bF) t') as [u P2].
+      destruct (dstream comp (r_buf bF) (Some e)) as [pF eF].
+      destruct (dstream comp (r_buf bF ++ t') None) as [pC eC]. cbn [fst snd] in P1, P2.
+      intros H1 H2; inversion H1; inversion H2; subst; clear H1 H2.
+      split; [|split; [reflexivity|right]].
+      * split; [reflexivity|split; [reflexivity|]]. cbn [r_buf]. eexists. reflexivity.
+      * split; [reflexivity|split; [reflexivity|]]. cbn [r_buf]. exists u. reflexivity.
+Qed.
+
+
+Lemma cut_drop k bF bC : cut bF bC ->
+  cut {| r_buf := drop k (r_buf bF); r_end := r_end bF; r_seek := r_seek bF |}
+      {| r_buf := drop k (r_buf bC); r_end := r_end bC; r_seek := r_seek bC |}.
+Proof.
+  intros [C1 [C2 [t C3]]]. split; [exact C1|split; [exact C2|]]. cbn [r_buf]. rewrite C3.
+  destruct (N.le_gt_cases k (blen (r_buf bF))) as [L|L].
+  - rewrite drop_app_le by lia. exists t. reflexivity.
+  - rewrite drop_app_ge by lia. rewrite (drop_all k (r_buf bF)) by lia. eexists. reflexivity.
+Qed.
+
+Lemma lc_validate_sim usize ucrc comp bF bC crF crC sF sC oeF sF' oeC sC' :
+  cut bF bC -> r_end bC = None -> rrel crF crC -> srel sF sC ->
+  lc_validate lo usize ucrc comp bF crF sF = (oeF, sF') ->
+  lc_validate lo usize ucrc comp bC crC sC = (oeC, sC') ->
+  oeF = Some e \/ (oeF = oeC /\ srel sF' sC').
+Proof.
+  intros Cb Nb Rc S. unfold lc_validate.
+  replace (lx_ubuf sC) with (lx_ubuf sF) by apply S.
+  destruct ((0 <? lo_max_chunk lo) && (lo_max_chunk lo <? usize)).
+  { intros H1 H2; inversion H1; inversion H2; subst. right. split; [reflexivity|exact S]. }
+  destruct ((lx_ubuf sF <? usize) && (max_int32 <? usize)).
+  { intros H1 H2; inversion H1; inversion H2; subst. right. split; [reflexivity|exact S]. }
+  destruct ((lx_ubuf sF <? usize) && negb (usize * 2 <? max_int32)).
+  { intros H1 H2; inversion H1; inversion H2; subst. right. split; [reflexivity|exact S]. }
+  set (saF := if lx_ubuf sF <? usize then _ else sF).
+  set (saC := if lx_ubuf sF <? usize then _ else sC).
+  assert (Sa : srel saF saC).
+  { subst saF saC. destruct (lx_ubuf sF <? usize); [|exact S]. apply srel_ubuf, srel_allocs, S. }
+  clearbody saF saC.
+  destruct (rd_full usize crF) as [[data x] r1] eqn:EF.
+  destruct (rd_full_rrel _ _ _ _ _ _ Rc EF) as [[-> _]|[r1C [EC [EeC HC]]]].
+  { intros H1 _. inversion H1. left. reflexivity. }
+  rewrite EC.
+  assert (R1 : rrel r1 r1C) by (destruct HC as [[_ ->]|HC]; [left; reflexivity|right; exact HC]).
+  destruct x as [x|].
+  { intros H1 H2; inversion H1; inversion H2; subst. right. split; [reflexivity|].
+    apply srel_chunk; assumption. }
+  destruct (bytes_eqb comp [x6c; x7a; x34]) eqn:Elz.
+  - destruct HC as [[_ <-]|HC].
+    + (* identical chunk readers *)
+      set (sbF := set lx_chunk _ (set lx_chunk _ saF)).
+      set (sbC := set lx_chunk _ (set lx_chunk _ saC)).
+      assert (Sb : srel sbF sbC).
+      { subst sbF sbC. apply srel_chunk; [apply srel_chunk; [exact Sa|left; reflexivity]|left; reflexivity]. }
+      clearbody sbF sbC.
+      destruct (match r_buf r1 with [] => _ | _ => _ end) as [x|].
+      { intros H1 H2; inversion H1; inversion H2; subst. right. split; [reflexivity|exact Sb]. }
+      destruct ((0 <? ucrc) && negb (crc32 data =? ucrc)).
+      { intros H1 H2; inversion H1; inversion H2; subst. right. split; [reflexivity|exact Sb]. }
+      intros H1 H2; inversion H1; inversion H2; subst. right. split; [reflexivity|].
+      apply srel_chunk; [|left; reflexivity].
+      destruct (_ || _); [|exact Sb]. apply srel_base; [exact Sb|apply cut_drop; exact Cb|exact Nb].
+    + (* the cut chunk reader still has its error pending: the lz4 tail check reports it *)
+      destruct HC as [C1 _]. rewrite C1.
+      intros H1 _. left. destruct (r_buf r1); inversion H1; reflexivity.
+  - set (sbF := set lx_chunk _ saF).
+    set (sbC := set lx_chunk _ saC).
+    assert (Sb : srel sbF sbC) by (subst sbF sbC; apply srel_chunk; assumption).
+    clearbody sbF sbC.
+    destruct ((0 <? ucrc) && negb (crc32 data =? ucrc)).
+    { intros H1 H2; inversion H1; inversion H2; subst. right. split; [reflexivity|exact Sb]. }
+    intros H1 H2; inversion H1; inversion H2; subst. right. split; [reflexivity|].
+    apply srel_chunk; [|left; reflexivity].
+    destruct (_ || _); [|exact Sb]. apply srel_base; [exact Sb|apply cut_drop; exact Cb|exact Nb].
+Qed.
+
+
+Lemma load_chunk_sim rl sF sC oeF sF' oeC sC' : srel sF sC ->
+  load_chunk lo dstream rl sF = (oeF, sF') -> load_chunk lo dstream rl sC = (oeC, sC') ->
+  oeF = Some e \/ (oeF = oeC /\ srel sF' sC').
+Proof.
+  intros S. rewrite !load_chunk_eq. pose proof (srel_in_chunk _ _ S) as Hin.
+  destruct (lx_chunk sF) eqn:EcF, (lx_chunk sC) eqn:EcC; try discriminate.
+  { intros H1 H2; inversion H1; inversion H2; subst. right. split; [reflexivity|exact S]. }
+  destruct (lc_head_sim rl sF sC S) as [[sF1 Hh]|Hh].
+  { rewrite Hh. intros H1 _. inversion H1. left. reflexivity. }
+  destruct (lc_head rl sF) as [x s1F|usize ucrc comp rlen s1F], (lc_head rl sC) as [y s1C|usize' ucrc' comp' rlen' s1C];
+    try contradiction.
+  { destruct Hh as [-> S1]. intros H1 H2; inversion H1; inversion H2; subst. right. split; [reflexivity|exact S1]. }
+  destruct Hh as [<- [<- [<- [<- S1]]]].
+  destruct (negb (lc_supported lo comp)).
+  { intros H1 H2; inversion H1; inversion H2; subst. right. split; [reflexivity|exact S1]. }
+  cbv zeta.
+  destruct (lc_open lo dstream comp rlen (lx_base s1F)) as [b'F crF] eqn:EoF.
+  destruct (lc_open lo dstream comp rlen (lx_base s1C)) as [b'C crC] eqn:EoC.
+  pose proof S1 as [Sb [Sn _]].
+  destruct (lc_open_sim _ _ _ _ _ _ _ _ Sb Sn EoF EoC) as [O1 [O2 O3]].
+  assert (S2 : srel (s1F <| lx_base := b'F |> <| lx_chunk := Some crF |>)
+                    (s1C <| lx_base := b'C |> <| lx_chunk := Some crC |>)).
+  { apply srel_chunk; [apply srel_base; assumption|exact O3]. }
+  destruct (negb (lo_validate lo)).
+  { intros H1 H2; inversion H1; inversion H2; subst. right. split; [reflexivity|exact S2]. }
+  intros H1 H2. eapply lc_validate_sim; [exact Sb|exact Sn|exact O3|exact S2|exact H1|exact H2].
+Qed.
+
+Lemma e_not_eofish : err_eqb e EEOF || (err_eqb e EUnexpectedEOF || err_eqb e ETruncated) = false.
+Proof.
+  apply orb_false_iff. split; [apply err_eqb_neq; exact He1|].
+  apply orb_false_iff. split; apply err_eqb_neq; assumption.
+Qed.
+
+Definition step_rel (a b : sres) : Prop :=
+  match a, b with
+  | SDone ev1 r1 s1, SDone ev2 r2 s2 => ev1 = ev2 /\ r1 = r2 /\ srel s1 s2
+  | SCont s1 ev1, SCont s2 ev2 => ev1 = ev2 /\ srel s1 s2
+  | _, _ => False
+  end.
+
+Lemma lex_step_sim pcap sF sC evs : srel sF sC ->
+  (exists sF', lex_step lo dstream pcap sF evs = SDone evs (NErr e) sF') \/
+  step_rel (lex_step lo dstream pcap sF evs) (lex_step lo dstream pcap sC evs).
+Proof.
+  intros S. unfold lex_step. rewrite <- (srel_in_chunk _ _ S).
+  destruct (rd_full 9 (cur sF)) as [[hd x] r1] eqn:EF.
+  destruct (rd_full_rrel _ _ _ _ _ _ (srel_cur _ _ S) EF) as [[-> _]|[r1C [EC [EeC HC]]]].
+  { left. pose proof e_not_eofish as Hn. apply orb_false_iff in Hn. destruct Hn as [Hn1 Hn2].
+    rewrite Hn1, Hn2. cbn [orb]. rewrite andb_false_r. eexists. reflexivity. }
+  rewrite EC.
+  assert (S1 : srel (set_cur r1 sF) (set_cur r1C sC)).
+  { apply srel_set_cur; [exact S|exact EeC|]. destruct HC as [[A B]|HC]; [left; auto|right; exact HC]. }
+  destruct x as [x|].
+  { right. destruct (_ && (_ || _)).
+    - split; [reflexivity|apply srel_chunk_none; exact S1].
+    - destruct (_ || _); [destruct (_ && _)|]; (split; [reflexivity|split; [reflexivity|exact S1]]). }
+  set (rlen := unle (skipn 1 hd)).
+  destruct ((0 <? lo_max_record lo) && (lo_max_record lo <? rlen)).
+  { right. split; [reflexivity|split; [reflexivity|exact S1]]. }
+  destruct (_ && negb (lo_emit_chunks lo)).
+  { destruct (load_chunk lo dstream rlen (set_cur r1 sF)) as [oeF s2F] eqn:ElF.
+    destruct (load_chunk lo dstream rlen (set_cur r1C sC)) as [oeC s2C] eqn:ElC.
+    destruct (load_chunk_sim _ _ _ _ _ _ _ S1 ElF ElC) as [->|[<- S2]].
+    - left. replace (err_eqb e EInvalidChunkCrc) with false by (symmetry; apply err_eqb_neq; exact He4).
+      rewrite andb_false_r. eexists. reflexivity.
+    - right. destruct oeF as [x|]; [destruct (lo_emit_invalid lo && _)|];
+        cbn [step_rel]; repeat (split; [reflexivity|]); exact S2. }
+  destruct (Byte.eqb _ OpAttachment).
+  { destruct (9223372036854775807 <? rlen); [right; split; [reflexivity|split; [reflexivity|exact S1]]|].
+    rewrite !do_attachment_none by exact Hcb.
+    destruct (rd_skip rlen (cur (set_cur r1 sF))) as [oe r2] eqn:EsF. cbn [fst snd].
+    destruct (rd_skip_rrel _ _ _ _ _ (srel_cur _ _ S1) EsF) as [[-> _]|[r2C [EsC [EeC2 HC2]]]].
+    { left. eexists. reflexivity. }
+    rewrite EsC. cbn [fst snd].
+    assert (S2 : srel (set_cur r2 (set_cur r1 sF)) (set_cur r2C (set_cur r1C sC))).
+    { apply srel_set_cur; [exact S1|exact EeC2|]. destruct HC2 as [[A B]|HC2]; [left; auto|right; exact HC2]. }
+    right. destruct oe; cbn [step_rel]; repeat (split; [reflexivity|]); exact S2. }
+  destruct ((pcap <? rlen) && negb (rlen <? max_int32)).
+  { right. split; [reflexivity|split; [reflexivity|exact S1]]. }
+  set (s1F := if pcap <? rlen then _ else set_cur r1 sF).
+  set (s1C := if pcap <? rlen then _ else set_cur r1C sC).
+  assert (S2 : srel s1F s1C).
+  { subst s1F s1C. destruct (pcap <? rlen); [apply srel_allocs|]; exact S1. }
+  clearbody s1F s1C.
+  destruct (rd_full rlen (cur s1F)) as [[body x] r3] eqn:EF3.
+  destruct (rd_full_rrel _ _ _ _ _ _ (srel_cur _ _ S2) EF3) as [[-> _]|[r3C [EC3 [EeC3 HC3]]]].
+  { left. destruct e; try congruence; eexists; reflexivity. }
+  rewrite EC3.
+  assert (S3 : srel (set_cur r3 s1F) (set_cur r3C s1C)).
+  { apply srel_set_cur; [exact S2|exact EeC3|]. destruct HC3 as [[A B]|HC3]; [left; auto|right; exact HC3]. }
+  right. destruct x as [x|]; [destruct x; cbn [step_rel]; repeat (split; [reflexivity|]); exact S3|].
+  destruct (known_op _); [cbn [step_rel]; repeat (split; [reflexivity|]); exact S3|].
+  destruct (Byte.eqb _ x00); cbn [step_rel]; repeat (split; [reflexivity|]); exact S3.
+Qed.
+
+
+Lemma lex_step_evs pcap s evs :
+  match lex_step lo dstream pcap s evs with SDone evs' _ _ | SCont _ evs' => evs' = evs end.
+Proof.
+  unfold lex_step. destruct (rd_full 9 (cur s)) as [[hd x] r1].
+  destruct x as [x|].
+  { destruct (_ && (_ || _)); [reflexivity|]. destruct (_ || _); [destruct (_ && _)|]; reflexivity. }
+  destruct (_ && (_ <? _)); [reflexivity|].
+  destruct (_ && negb (lo_emit_chunks lo)).
+  { destruct (load_chunk _ _ _ _) as [[x|] s2]; [destruct (lo_emit_invalid lo && _)|]; reflexivity. }
+  destruct (Byte.eqb _ OpAttachment).
+  { destruct (9223372036854775807 <? _); [reflexivity|].
+    rewrite do_attachment_none by exact Hcb. destruct (fst (rd_skip _ _)); reflexivity. }
+  destruct (_ && negb _); [reflexivity|].
+  destruct (rd_full _ _) as [[body x] r3].
+  destruct x as [x|]; [destruct x; reflexivity|].
+  destruct (known_op _); [reflexivity|]. destruct (Byte.eqb _ x00); reflexivity.
+Qed.
+
+Lemma lex_next_evs : forall fuel pcap s evs evs' res s',
+  lex_next lo dstream fuel pcap s evs = Ok (evs', res, s') -> evs' = evs.
+Proof.
+  induction fuel as [|f IH]; intros pcap s evs evs' res s'; [discriminate|].
+  rewrite lex_next_S. pose proof (lex_step_evs pcap s evs) as Hs.
+  destruct (lex_step _ _ _ _ _) as [a b c|s1 evs1].
+  - intros H; inversion H; subst. reflexivity.
+  - subst evs1. apply IH.
+Qed.
+
+Lemma lex_next_sim : forall fF fC pcap sF sC evs evsF resF sF' evsC resC sC',
+  srel sF sC ->
+  lex_next lo dstream fF pcap sF evs = Ok (evsF, resF, sF') ->
+  lex_next lo dstream fC pcap sC evs = Ok (evsC, resC, sC') ->
+  resF = NErr e \/ (resF = resC /\ srel sF' sC').
+Proof.
+  induction fF as [|fF IH]; intros fC pcap sF sC evs evsF resF sF' evsC resC sC' S; [discriminate|].
+  destruct fC as [|fC]; [discriminate|]. rewrite !lex_next_S.
+  destruct (lex_step_sim pcap sF sC evs S) as [[s1 Hs]|Hs].
+  { rewrite Hs. intros H _. inversion H. left. reflexivity. }
+  destruct (lex_step lo dstream pcap sF evs) as [a b c|s1 e1], (lex_step lo dstream pcap sC evs) as [a' b' c'|s1' e1'];
+    cbn [step_rel] in Hs; try contradiction.
+  - destruct Hs as [-> [-> S1]]. intros H1 H2; inversion H1; inversion H2; subst. right. auto.
+  - destruct Hs as [-> S1]. apply IH. exact S1.
+Qed.
+
+Lemma lex_loop_ext : forall n fuel s acc evs fin s',
+  lex_loop lo dstream n fuel s acc = Ok (evs, fin, s') -> exists t, evs = acc ++ t.
+Proof.
+  induction n as [|n IH]; intros fuel s acc evs fin s'; [discriminate|]. cbn [lex_loop].
+  destruct (lex_next lo dstream fuel 0 s []) as [[[evs1 r] s1]| | | |]; try discriminate.
+  destruct r.
+  - intros H. apply IH in H. destruct H as [t ->]. exists ((evs1 ++ [ev]) ++ t). rewrite <- app_assoc. reflexivity.
+  - intros H; inversion H; subst. eexists. reflexivity.
+Qed.
+
+Lemma lex_loop_sim : forall n n' fF fC sF sC acc evsF finF sF' evsC finC sC',
+  srel sF sC ->
+  lex_loop lo dstream n fF sF acc = Ok (evsF, finF, sF') ->
+  lex_loop lo dstream n' fC sC acc = Ok (evsC, finC, sC') ->
+  (exists t, evsC = evsF ++ t) /\ (finF = e \/ (finF = finC /\ evsF = evsC)).
+Proof.
+  induction n as [|n IH]; intros n' fF fC sF sC acc evsF finF sF' evsC finC sC' S; [discriminate|].
+  destruct n' as [|n']; [discriminate|]. cbn [lex_loop].
+  destruct (lex_next lo dstream fF 0 sF []) as [[[evs1 r] s1]| | | |] eqn:EF; try discriminate.
+  destruct (lex_next lo dstream fC 0 sC []) as [[[evs1' r'] s1']| | | |] eqn:EC; try discriminate.
+  pose proof (lex_next_evs _ _ _ _ _ _ _ EF). pose proof (lex_next_evs _ _ _ _ _ _ _ EC). subst evs1 evs1'.
+  destruct (lex_next_sim _ _ _ _ _ _ _ _ _ _ _ _ S EF EC) as [->|[<- S1]].
+  - intros H1 H2. inversion H1; subst; clear H1. split; [|left; reflexivity].
+    destruct r'.
+    + apply lex_loop_ext in H2. destruct H2 as [t ->]. exists ([ev] ++ t).
+      rewrite !app_nil_r. cbn [app]. rewrite <- app_assoc. reflexivity.
+    + inversion H2; subst. exists []. rewrite !app_nil_r. reflexivity.
+  - destruct r.
+    + apply IH. exact S1.
+    + intros H1 H2; inversion H1; inversion H2; subst. split; [exists []; rewrite !app_nil_r; reflexivity|].
+      right. auto.
+Qed.
+
+Lemma new_lexer_sim p rest sk sF :
+  new_lexer lo {| r_buf := p; r_end := Some e; r_seek := sk |} = Ok sF ->
+  exists sC, new_lexer lo {| r_buf := p ++ rest; r_end := None; r_seek := sk |} = Ok sC /\ srel sF sC.
+Proof.
+  assert (C0 : cut {| r_buf := p; r_end := Some e; r_seek := sk |} {| r_buf := p ++ rest; r_end := None; r_seek := sk |}).
+  { split; [reflexivity|split; [reflexivity|exists rest; reflexivity]]. }
+  unfold new_lexer. destruct (lo_skip_magic lo).
+  { intros H; inversion H; subst. eexists. split; [reflexivity|].
+    split; [exact C0|]. rsimpl. repeat split. }
+  destruct (rd_full 8 {| r_buf := p; r_end := Some e; r_seek := sk |}) as [[m x] r1] eqn:EF.
+  destruct (rd_full_rrel _ _ _ _ _ _ (or_intror C0) EF) as [[-> _]|[r1C [EC [EeC HC]]]]; [discriminate|].
+  rewrite EC. destruct x; [discriminate|]. destruct (bytes_eqb m magic); [|discriminate].
+  intros H; inversion H; subst. eexists. split; [reflexivity|].
+  destruct HC as [[HC _]|HC]; [discriminate|].
+  split; [exact HC|]. rsimpl. repeat split. exact EeC.
+Qed.
+
+Theorem lex_all_error_prefix fuel fuel' p rest sk evsF finF sF evsC finC sC :
+  lex_all lo dstream fuel {| r_buf := p; r_end := Some e; r_seek := sk |} = Ok (evsF, finF, sF) ->
+  lex_all lo dstream fuel' {| r_buf := p ++ rest; r_end := None; r_seek := sk |} = Ok (evsC, finC, sC) ->
+  (exists t, evsC = evsF ++ t) /\ (finF = e \/ (finF = finC /\ evsF = evsC)).
+Proof.
+  unfold lex_all.
+  destruct (new_lexer lo {| r_buf := p; r_end := Some e; r_seek := sk |}) as [s0| | | |] eqn:EF; try discriminate.
+  destruct (new_lexer_sim p rest sk s0 EF) as [s0C [EC S]]. rewrite EC.
+  apply lex_loop_sim. exact S.
+Qed.
+
+End Prefix.
+
+(* ====================================================================================== *)
+(* Part 4: the statements the property files quote                                         *)
+(* ====================================================================================== *)
+
+Theorem parse_total_no_crash (buf : bytes) :
+  no_crash (parse_header buf) = true /\ no_crash (parse_footer buf) = true /\
+  no_crash (parse_schema buf) = true /\ no_crash (parse_channel buf) = true /\
+  no_crash (parse_message buf) = true /\ no_crash (parse_chunk buf) = true /\
+  no_crash (parse_msgindex buf) = true /\ no_crash (parse_chunkindex buf) = true /\
+  no_crash (parse_attindex buf) = true /\ no_crash (parse_statistics buf) = true /\
+  no_crash (parse_metadata buf) = true /\ no_crash (parse_mdindex buf) = true /\
+  no_crash (parse_sumoffset buf) = true /\ no_crash (parse_dataend buf) = true.
+Proof.
+  pose proof (parse_total_all buf) as H. rewrite !okerr_no_crash in H. exact H.
+Qed.
+
+Theorem lex_next_no_panic lo dstream fuel pcap s evs site :
+  lex_next lo dstream fuel pcap s evs <> Panic site /\ lex_next lo dstream fuel pcap s evs <> Exit site.
+Proof.
+  pose proof (lex_next_no_pe lo dstream fuel pcap s evs) as H.
+  split; intros E; rewrite E in H; exact H.
+Qed.
+
+Theorem new_lexer_no_crash lo src : no_crash (new_lexer lo src) = true.
+Proof. apply okerr_no_crash, new_lexer_okerr. Qed.
+
+Theorem lex_all_no_panic lo dstream fuel src site :
+  lex_all lo dstream fuel src <> Panic site /\ lex_all lo dstream fuel src <> Exit site.
+Proof.
+  pose proof (lex_all_no_pe lo dstream fuel src) as H.
+  split; intros E; rewrite E in H; exact H.
+Qed.
+
+(* explicit fuel bounds *)
+Theorem lex_next_total_explicit lo dstream (B : nat) :
+  (forall c a e, (length (fst (dstream c a e)) <= length a + B)%nat) ->
+  forall fuel pcap s evs,
+    (length (r_buf (lx_base s)) * (B + 2) +
+     match lx_chunk s with None => 0 | Some r => S (length (r_buf r)) end < fuel)%nat ->
+    exists evs' res s', lex_next lo dstream fuel pcap s evs = Ok (evs', res, s').
+Proof.
+  intros HB fuel pcap s evs Hf.
+  destruct (lex_next_total lo dstream B HB fuel pcap s evs Hf) as [a [b [c [H _]]]]. eauto.
+Qed.
+
+(* the decoder never delivers more than B bytes *)
+Theorem lex_next_total_abs lo dstream (B : nat) :
+  (forall c a e, (length (fst (dstream c a e)) <= B)%nat) ->
+  forall fuel pcap s evs,
+    ((length (r_buf (lx_base s)) + 1) * (B + 2) +
+     match lx_chunk s with None => 0 | Some r => length (r_buf r) end + 2 <= fuel)%nat ->
+    exists evs' res s', lex_next lo dstream fuel pcap s evs = Ok (evs', res, s').
+Proof.
+  intros HB fuel pcap s evs Hf. apply (lex_next_total_explicit lo dstream B).
+  - intros c a e0. specialize (HB c a e0). lia.
+  - destruct (lx_chunk s); nia.
+Qed.
+
+(* the decoder never delivers more than it was given (identity-like oracles) *)
+Theorem lex_next_total_nonexpanding lo dstream :
+  (forall c a e, (length (fst (dstream c a e)) <= length a)%nat) ->
+  forall fuel pcap s evs,
+    (2 * length (r_buf (lx_base s)) +
+     match lx_chunk s with None => 0 | Some r => length (r_buf r) end + 2 <= fuel)%nat ->
+    exists evs' res s', lex_next lo dstream fuel pcap s evs = Ok (evs', res, s').
+Proof.
+  intros HB fuel pcap s evs Hf. apply (lex_next_total_explicit lo dstream 0).
+  - intros c a e0. specialize (HB c a e0). lia.
+  - destruct (lx_chunk s); lia.
+Qed.
+
+Theorem lex_all_total_nonexpanding lo dstream :
+  (forall c a e, (length (fst (dstream c a e)) <= length a)%nat) ->
+  forall fuel src, (2 * length (r_buf src) < fuel)%nat -> no_crash (lex_all lo dstream fuel src) = true.
+Proof.
+  intros HB fuel src Hf. apply okerr_no_crash. apply (lex_all_total lo dstream 0).
+  - intros c a e0. rewrite Nat.add_0_r. apply HB.
+  - lia.
+Qed.
+
+Theorem lex_all_total_abs lo dstream (B : nat) :
+  (forall c a e, (length (fst (dstream c a e)) <= B)%nat) ->
+  forall fuel src, (length (r_buf src) * (B + 2) < fuel)%nat -> no_crash (lex_all lo dstream fuel src) = true.
+Proof.
+  intros HB fuel src Hf. apply okerr_no_crash. apply (lex_all_total lo dstream B).
+  - intros c a e0. eapply Nat.le_trans; [apply HB|]. apply Nat.le_add_l.
+  - exact Hf.
+Qed.
+
+(* allocation ceiling as an invariant of the log *)
+Theorem lex_next_alloc_invariant lo dstream fuel pcap s evs evs' res s' :
+  Forall (fun n => n < max_int32) (lx_allocs s) ->
+  lex_next lo dstream fuel pcap s evs = Ok (evs', res, s') ->
+  Forall (fun n => n < max_int32) (lx_allocs s').
+Proof.
+  intros Hinv H. apply lex_next_allocs in H. eapply allocs_ext_forall; [|exact Hinv].
+  eapply allocs_ext_weaken; [|exact H]. intros n [A _]. exact A.
+Qed.
+
+Theorem load_chunk_alloc_invariant lo dstream rl s oe s' :
+  Forall (fun n => n < max_int32) (lx_allocs s) ->
+  load_chunk lo dstream rl s = (oe, s') ->
+  Forall (fun n => n < max_int32) (lx_allocs s').
+Proof.
+  intros Hinv H. apply load_chunk_allocs in H. eapply allocs_ext_forall; [|exact Hinv].
+  eapply allocs_ext_weaken; [|exact H]. intros n [A _]. exact A.
+Qed.
+
+(* ====================================================================================== *)
+(* Part 5: concrete inputs for the non-vacuity examples                                    *)
+(* ====================================================================================== *)
+Definition ex_lo (validate : bool) (cb : cbmode) (maxrec maxchunk : N) : lopts :=
+  {| lo_skip_magic := false; lo_validate := validate; lo_compute_acrc := false;
+     lo_emit_chunks := false; lo_emit_invalid := false; lo_max_record := maxrec;
+     lo_max_chunk := maxchunk; lo_cb := cb; lo_custom := [] |}.
+(* identity decoder: delivers its input and ends the way its input ends *)
+Definition id_oracle : doracle := fun _ a en => (a, en).
+
+Lemma id_oracle_nonexpanding c a e : (length (fst (id_oracle c a e)) <= length a)%nat.
+Proof. cbn. lia. Qed.
+Lemma id_oracle_propagates (e : err) c a : snd (id_oracle c a (Some e)) = Some e.
+Proof. reflexivity. Qed.
+Lemma id_oracle_monotone (e : err) c (a t : list byte) :
+  exists u, fst (id_oracle c (a ++ t) None) = fst (id_oracle c a (Some e)) ++ u.
+Proof. exists t. reflexivity. Qed.
+
+Definition ex_chunk_body (usize crc : N) (comp : bytes) (rl : N) (records : bytes) : bytes :=
+  u64 0 ++ u64 0 ++ u64 usize ++ u32 crc ++ pstr comp ++ u64 rl ++ records.
+Definition ex_hdr : bytes := frame OpHeader (pstr [] ++ pstr []).
+Definition ex_msg (d : bytes) : bytes :=
+  frame OpMessage (enc_message {| m_chan := 1; m_seq := 2; m_log := 3; m_pub := 4; m_data := d |}).
+Definition ex_strip (x : outcome (list event * err * lstate)) : outcome (list event * err) :=
+  match x with
+  | Ok (a, b, _) => Ok (a, b) | Err e => Err e | Panic p => Panic p | Exit p => Exit p
+  | OutOfFuel => OutOfFuel
+  end.
+Definition ex_allocs (x : outcome (list event * err * lstate)) : list N :=
+  match x with Ok (_, _, s) => lx_allocs s | _ => [] end.
+Definition ex_rdr (b : bytes) (en : option err) (sk : bool) : rdr :=
+  {| r_buf := b; r_end := en; r_seek := sk |}.
+
+(* hostile: a chunk record header claiming 2^63 bytes whose chunk claims 2^62 uncompressed bytes
+   and a records length of 2^63 *)
+Definition ex_hostile_chunk : bytes :=
+  magic ++ frame_head OpChunk 9223372036854775808 ++
+  ex_chunk_body 4611686018427387904 0 [] 9223372036854775808 [x01; x02; x03].
+(* hostile: a message record claiming 2^63 bytes *)
+Definition ex_hostile_msg : bytes := magic ++ ex_hdr ++ frame_head OpMessage 9223372036854775808 ++ [x01].
+(* a well-formed little file: header, chunk with two messages, message outside *)
+Definition ex_records : bytes := ex_msg [x61] ++ ex_msg [x62; x63].
+Definition ex_file : bytes :=
+  magic ++ ex_hdr ++ frame OpChunk (ex_chunk_body (blen ex_records) 0 [] (blen ex_records) ex_records)
+  ++ ex_msg [x64] ++ frame OpFooter (enc_footer {| f_summary_start := 0; f_summary_offset_start := 0; f_crc := 0 |})
+  ++ magic.
+(* malformed: validated chunk declaring 5 uncompressed bytes with an empty records field *)
+Definition ex_empty_chunk : bytes :=
+  magic ++ ex_hdr ++ frame OpChunk (ex_chunk_body 5 0 [] 0 []) ++ ex_hdr.
+(* malformed: attachment record inside a chunk, longer than the chunk *)
+Definition ex_att_in_chunk : bytes :=
+  magic ++ ex_hdr ++ frame OpChunk (ex_chunk_body 0 0 [] 9 (frame_head OpAttachment 100)) ++ ex_hdr.
+(* malformed: attachment record of length 8 (too short for its fixed fields) *)
+Definition ex_short_att : bytes := magic ++ ex_hdr ++ frame OpAttachment (u64 7) ++ ex_hdr.
+
+(* ====================================================================================== *)
+(* Part 6: C15 statements in closed form                                                   *)
+(* ====================================================================================== *)
+Theorem error_not_eof_stmt : forall lo dstream e,
+  e <> EEOF -> e <> EUnexpectedEOF -> e <> ETruncated -> lo_cb lo = CbNone ->
+  forall fuel p sk evs fin s',
+    lex_all lo dstream fuel {| r_buf := p; r_end := Some e; r_seek := sk |} = Ok (evs, fin, s') ->
+    fin = EEOF -> exists r, lx_chunk s' = Some r /\ end_err r = EEOF.
+Proof. intros lo dstream e H1 H2 H3 Hcb. exact (lex_all_fail_eof lo dstream e H1 H2 H3 Hcb). Qed.
+
+Theorem error_not_eof_emit_chunks_stmt : forall lo dstream e,
+  e <> EEOF -> e <> EUnexpectedEOF -> e <> ETruncated -> lo_cb lo = CbNone ->
+  lo_emit_chunks lo = true ->
+  forall fuel p sk evs fin s',
+    lex_all lo dstream fuel {| r_buf := p; r_end := Some e; r_seek := sk |} = Ok (evs, fin, s') ->
+    fin <> EEOF.
+Proof.
+  intros lo dstream e H1 H2 H3 Hcb Hem fuel p sk evs fin s'.
+  exact (lex_all_fail_not_eof_emit_chunks lo dstream e H1 H2 H3 Hcb fuel p sk evs fin s' Hem).
+Qed.
+
+Theorem error_prefix_stmt : forall lo dstream e,
+  e <> EEOF -> e <> EUnexpectedEOF -> e <> ETruncated -> e <> EInvalidChunkCrc ->
+  lo_cb lo = CbNone ->
+  (forall c a, snd (dstream c a (Some e)) = Some e) ->
+  (forall c a t, exists u, fst (dstream c (a ++ t) None) = fst (dstream c a (Some e)) ++ u) ->
+  forall fuel fuel' p rest sk evsF finF sF evsC finC sC,
+    lex_all lo dstream fuel {| r_buf := p; r_end := Some e; r_seek := sk |} = Ok (evsF, finF, sF) ->
+    lex_all lo dstream fuel' {| r_buf := p ++ rest; r_end := None; r_seek := sk |} = Ok (evsC, finC, sC) ->
+    (exists t, evsC = evsF ++ t) /\ (finF = e \/ (finF = finC /\ evsF = evsC)).
+Proof.
+  intros lo dstream e H1 H2 H3 H4 Hcb Hp Hm.
+  exact (lex_all_error_prefix lo dstream e H1 H2 H3 H4 Hcb Hp Hm).
+Qed.
+
+(* a clean EOF reported on a failing source is not caused by the failure: the complete input gives
+   the same events and the same clean EOF (the failure position was never reached) *)
+Theorem eof_not_caused_by_failure_stmt : forall lo dstream e,
+  e <> EEOF -> e <> EUnexpectedEOF -> e <> ETruncated -> e <> EInvalidChunkCrc ->
+  lo_cb lo = CbNone ->
+  (forall c a, snd (dstream c a (Some e)) = Some e) ->
+  (forall c a t, exists u, fst (dstream c (a ++ t) None) = fst (dstream c a (Some e)) ++ u) ->
+  forall fuel fuel' p rest sk evsF sF evsC finC sC,
+    lex_all lo dstream fuel {| r_buf := p; r_end := Some e; r_seek := sk |} = Ok (evsF, EEOF, sF) ->
+    lex_all lo dstream fuel' {| r_buf := p ++ rest; r_end := None; r_seek := sk |} = Ok (evsC, finC, sC) ->
+    finC = EEOF /\ evsC = evsF.
+Proof.
+  intros lo dstream e H1 H2 H3 H4 Hcb Hp Hm fuel fuel' p rest sk evsF sF evsC finC sC HF HC.
+  destruct (error_prefix_stmt lo dstream e H1 H2 H3 H4 Hcb Hp Hm _ _ _ _ _ _ _ _ _ _ _ HF HC) as [_ [E|[E1 E2]]].
+  - congruence.
+  - split; congruence.
+Qed.
+
+(* the general statement (attachment callbacks allowed): the last attachment event of the failing
+   run may carry fewer data bytes *)
+Definition att_truncated (a' a : attobs) : Prop :=
+  ao_log a' = ao_log a /\ ao_create a' = ao_create a /\ ao_name a' = ao_name a /\
+  ao_media a' = ao_media a /\ ao_size a' = ao_size a /\ exists t, ao_data a = ao_data a' ++ t.
+Definition events_prefix_upto_attachment (evsF evsC : list event) : Prop :=
+  (exists t, evsC = evsF ++ t) \/
+  (exists pre a' a t, evsF = pre ++ [EvAttachment a'] /\ evsC = pre ++ EvAttachment a :: t /\
+                      att_truncated a' a).
+Definition error_prefix_full_statement : Prop :=
+  forall lo dstream e,
+  e <> EEOF -> e <> EUnexpectedEOF -> e <> ETruncated -> e <> EInvalidChunkCrc -> e <> ECallback ->
+  (forall c a, snd (dstream c a (Some e)) = Some e) ->
+  (forall c a t, exists u, fst (dstream c (a ++ t) None) = fst (dstream c a (Some e)) ++ u) ->
+  forall fuel fuel' p rest sk evsF finF sF evsC finC sC,
+    lex_all lo dstream fuel {| r_buf := p; r_end := Some e; r_seek := sk |} = Ok (evsF, finF, sF) ->
+    lex_all lo dstream fuel' {| r_buf := p ++ rest; r_end := None; r_seek := sk |} = Ok (evsC, finC, sC) ->
+    events_prefix_upto_attachment evsF evsC /\ (finF = e \/ (finF = finC /\ evsF = evsC)).
